@@ -68,6 +68,7 @@ type FnCtx struct {
 	constArrays      map[string]string
 	witnesses        []Witness
 	parentState      *State
+	sqAxiom          bool
 }
 
 type Frame struct {
@@ -91,6 +92,7 @@ type Frame struct {
 	iterFv    *FnVal // the closure passed to this (iterator) frame, when it carries iter invariants
 	iterCaller *Frame
 	baseScope  int
+	loopEntryState map[*Loop]*State
 	loopScope  map[*Loop]int
 }
 
@@ -228,7 +230,7 @@ func (e *Engine) srcText(pos token.Pos, want string) string {
 func (c *FnCtx) newFrame(fn *ssa.Function, parent *Frame, fv *FnVal) *Frame {
 	fr := &Frame{c: c, fn: fn, vals: map[ssa.Value]Val{}, parent: parent, fnval: fv,
 		reach: map[*ssa.BasicBlock]string{}, edgeIn: map[*ssa.BasicBlock][]edgeIn{}, iterGhost: map[*ssa.Range]string{},
-		baseScope: c.smt.curScope, loopScope: map[*Loop]int{}}
+		baseScope: c.smt.curScope, loopScope: map[*Loop]int{}, loopEntryState: map[*Loop]*State{}}
 	if parent != nil {
 		fr.depth = parent.depth + 1
 		l := shortFn(fn)
@@ -603,16 +605,36 @@ func (e *Engine) loopInfo(fn *ssa.Function) *LoopInfo {
 	for i, lp := range li.loops {
 		lp.ordinal = i + 1
 	}
-	// reverse postorder over forward edges
+	// reverse postorder over forward edges. Successors that leave the innermost loop of a block
+	// are visited first in the DFS, so that in the reverse order the loop body precedes the code
+	// after the loop (obligations inside a loop then do not see assumptions made after it).
+	innermost := func(b *ssa.BasicBlock) *Loop {
+		var best *Loop
+		for _, lp := range li.loops {
+			if lp.body[b] && (best == nil || len(lp.body) < len(best.body)) {
+				best = lp
+			}
+		}
+		return best
+	}
 	seen := map[*ssa.BasicBlock]bool{}
 	var post []*ssa.BasicBlock
 	var dfs func(b *ssa.BasicBlock)
 	dfs = func(b *ssa.BasicBlock) {
 		seen[b] = true
+		lp := innermost(b)
+		var leaving, staying []*ssa.BasicBlock
 		for _, s := range b.Succs {
 			if s.Dominates(b) {
 				continue // back edge
 			}
+			if lp != nil && !lp.body[s] {
+				leaving = append(leaving, s)
+			} else {
+				staying = append(staying, s)
+			}
+		}
+		for _, s := range append(leaving, staying...) {
 			if !seen[s] {
 				dfs(s)
 			}
@@ -638,6 +660,7 @@ func (fr *Frame) enterLoop(lp *Loop, ins []edgeIn) (*State, string) {
 	}
 	r0 := c.smt.define("Rloop", "Bool", or(conds...))
 	s0 := c.mergeStates(inc)
+	fr.loopEntryState[lp] = s0
 	fr.checkInvariants(lp, s0, r0, "inv-init", nil)
 	s1 := s0.clone()
 	eff := c.eng.loopEffects(fr.fn, lp, fr)
@@ -925,6 +948,7 @@ func (fr *Frame) checkInvariants(lp *Loop, st *State, reach, kind string, from *
 	for _, cl := range fr.contract.loopClauses("invariant", lp.ordinal) {
 		for _, cj := range conjuncts(cl.Expr) {
 			env := fr.env(st)
+			env.loopEntry = fr.loopEntryState[lp]
 			t, err := env.evalBool(cj)
 			if err != nil {
 				fr.bindFailure(cl, err)
